@@ -4,6 +4,7 @@ import (
 	"fmt"
 	"go/token"
 	"go/types"
+	"sort"
 	"strings"
 
 	"golang.org/x/tools/go/ssa"
@@ -1384,4 +1385,100 @@ func clampRule(c *Ctx, r *Result, rule string, floor int) {
 func init() {
 	registry["C09"].Meta.Rules["C09.17"] = "a clamp assigns the bound it tested: where a branch on x > B (>=, or the mirrored forms) assigns x in its arm and the assigned value differs from B by a constant, that constant is 0 (chunkEnd = datasetDims - 1 after chunkEnd > datasetDims treats an exclusive end as inclusive: the last index of every boundary chunk reads as 0)"
 	registry["C09"].Rules = append(registry["C09"].Rules, func(c *Ctx, r *Result) { clampRule(c, r, "C09.17", 5) })
+}
+
+// ---- a field that is read is written somewhere (C09.18) ----
+//
+// A field of an unexported struct of the root package that some function reads but no function ever stores to (no assignment,
+// no composite literal that sets it) is always the zero value where it is read: the code that was to fill it was dropped
+// (the filter pipeline message of the partial-read path: chunks are then taken as they lie in the file, still compressed).
+func readButNeverWrittenRule(c *Ctx, r *Result, rule string, pkgs map[string]bool, floor int) {
+	written := map[*types.Var]bool{}
+	read := map[*types.Var]string{}
+	for _, fn := range c.LibFuncs() {
+		if fn.Blocks == nil {
+			continue
+		}
+		instrs(fn, func(in ssa.Instruction) {
+			switch x := in.(type) {
+			case *ssa.Store:
+				if fa, ok := x.Addr.(*ssa.FieldAddr); ok {
+					if f, _ := fieldOfAddr(fa); f != nil {
+						written[f] = true
+					}
+				}
+			case *ssa.FieldAddr:
+				f, _ := fieldOfAddr(x)
+				if f == nil {
+					return
+				}
+				for _, ref := range *x.Referrers() {
+					switch y := ref.(type) {
+					case *ssa.UnOp:
+						if y.Op == token.MUL {
+							if _, seen := read[f]; !seen {
+								read[f] = c.InstrPos(y)
+							}
+						}
+					case *ssa.Store:
+						if y.Addr != ssa.Value(x) {
+							written[f] = true // its address escapes
+						}
+					default:
+						written[f] = true // address taken / passed on: may be written through it
+					}
+				}
+			case *ssa.Field:
+				if st, ok := x.X.Type().Underlying().(*types.Struct); ok {
+					f := st.Field(x.Field)
+					if _, seen := read[f]; !seen {
+						read[f] = c.InstrPos(x)
+					}
+				}
+			}
+		})
+	}
+	n := 0
+	var fields []*types.Var
+	for f := range read {
+		fields = append(fields, f)
+	}
+	sort.Slice(fields, func(i, j int) bool { return read[fields[i]] < read[fields[j]] })
+	for _, f := range fields {
+		if f.Pkg() == nil || !pkgs[f.Pkg().Name()] || f.Embedded() {
+			continue
+		}
+		// the struct it belongs to must be unexported and declared in the module (nobody outside can fill it)
+		owner := ""
+		if scope := f.Pkg().Scope(); scope != nil {
+			for _, name := range scope.Names() {
+				tn, ok := scope.Lookup(name).(*types.TypeName)
+				if !ok {
+					continue
+				}
+				st, ok := tn.Type().Underlying().(*types.Struct)
+				if !ok {
+					continue
+				}
+				for i := 0; i < st.NumFields(); i++ {
+					if st.Field(i) == f {
+						owner = name
+					}
+				}
+			}
+		}
+		if owner == "" || token.IsExported(owner) {
+			continue
+		}
+		n++
+		r.Check(written[f], rule, f.Pkg().Name()+"."+owner+"."+f.Name()+"#read-and-written", read[f], "the field is read here; some function stores to it or sets it in a literal")
+	}
+	if n < floor {
+		r.Shortfall(c, rule, fmt.Sprintf("%s: only %d fields of unexported structs examined (expected >= %d)", rule, n, floor))
+	}
+}
+
+func init() {
+	registry["C09"].Meta.Rules["C09.18"] = "a field that is read is written somewhere: every field of an unexported struct of the root package that a function loads is stored to by some function or set in a composite literal (with the `case MsgFilterPipeline` of the partial-read message scan dropped, hyperslabMessages.filterPipeline is always nil where it is read and chunks are decoded as they lie in the file, still compressed)"
+	registry["C09"].Rules = append(registry["C09"].Rules, func(c *Ctx, r *Result) { readButNeverWrittenRule(c, r, "C09.18", map[string]bool{"hdf5": true}, 20) })
 }
